@@ -503,8 +503,8 @@ def _local_mask_gate(m, fname, nid):
 
 
 # registration flags: (flag field, bit, sync-table side) - the bit mirrors "this PDO is registered in the SYNC table"
-REG_FLAGS = [(('CO_RPDO', 'Flag'), 0x02, 'CO_SYNC_FLG_RX', ['C13', 'C16']),
-             (('CO_TPDO', 'Flags'), 0x04, 'CO_SYNC_FLG_TX', ['C12', 'C16'])]
+REG_FLAGS = [(('CO_RPDO', 'Flag'), 0x02, 'CO_SYNC_FLG_RX', ['C13', 'C14', 'C16']),
+             (('CO_TPDO', 'Flags'), 0x04, 'CO_SYNC_FLG_TX', ['C12', 'C14', 'C16'])]
 
 
 def sync_registration(ctx):
